@@ -18,7 +18,7 @@ using F = tr::Flavour<double, 4, 4, double, double, 1>;
 #elif VH_FL == 5
 using F = tr::Flavour<float, 3, 5, float, float, 2>;
 #elif VH_FL == 6
-using F = tr::Flavour<float, 2, 6, float, float, 4>;
+using F = tr::Flavour<float, 2, 6, float, double, 4>;   // results wider than the coordinate type
 #elif VH_FL == 7
 using F = tr::Flavour<double, 3, 7, float, long, 4>;
 #elif VH_FL == 8
@@ -26,7 +26,7 @@ using F = tr::Flavour<float, 3, 4, double, void_data, 0>;
 #elif VH_FL == 9
 using F = tr::Flavour<double, 3, 3, double, double, 1, tbx::Morton<double, 3, true>>;
 #elif VH_FL == 10
-using F = tr::Flavour<float, 1, 3, float, float, 3>;
+using F = tr::Flavour<float, 1, 3, float, long, 3>;
 #endif
 
 void VH_FN(std::map<std::string, std::vector<tr::Segment>>& out) {
